@@ -290,6 +290,21 @@ fn expect_span(h: &str, entry: &str, src: &str, e: Option<Error>, region: (usize
             None => fail!(format!("c03s:hooks:unspanned:{}:{}", entry, h), "{}::{}(`{}`): error `{}` carries no span", h, entry, src, leaf),
             Some(sp) => {
                 let r = range(sp);
+                // an error the overriding hook raised without a span is given *the* span of the value / item on the
+                // way out - exactly that node's, not merely something inside it
+                if leaf.to_string().starts_with("hook refuses") {
+                    ensure!(
+                        r == region,
+                        format!("c03s:hooks:span-not-exactly-the-{}:{}:{}", region_name, entry, h),
+                        "{}::{}(`{}`): the hook's unspanned error came back spanning {:?}, the {} is at {:?}",
+                        h,
+                        entry,
+                        src,
+                        r,
+                        region_name,
+                        region
+                    );
+                }
                 ensure!(
                     inside(r, region),
                     format!("c03s:hooks:span-outside-{}:{}:{}", region_name, entry, h),
